@@ -817,6 +817,27 @@ def PosInjective (hashV : Nat → Nat → Nat) (nodes : List Nat) (vnodes : Nat)
 instance (hashV : Nat → Nat → Nat) (nodes : List Nat) (vnodes : Nat) :
     Decidable (PosInjective hashV nodes vnodes) := by unfold PosInjective; infer_instance
 
+/-- with a collision-free byte hash the positions `hash_virtual_node` computes are pairwise
+    distinct for ANY membership: `(u64 id, u32 index)` is a fixed-width, hence injective, stream -/
+theorem posInjective_vnodePos {sip : List Nat → Nat} (hs : ∀ a b, sip a = sip b → a = b)
+    (nodes : List Nat) (vnodes : Nat) : PosInjective (vnodePos sip) nodes vnodes := by
+  intro a _ b _ i _ j _ h
+  have h1 := hs _ _ h
+  have e8 : ∀ n, (HB.le64 n).length = 8 := fun _ => rfl
+  obtain ⟨h2, h3⟩ := List.append_inj h1 (by rw [e8, e8])
+  have inj : ∀ w (x y : Nat), HB.leBytes (w + 1) x = HB.leBytes (w + 1) y → x = y := by
+    intro w
+    induction w with
+    | zero => intro x y hxy; simpa [HB.leBytes] using hxy
+    | succ w ih =>
+      intro x y hxy
+      simp only [HB.leBytes, List.cons.injEq] at hxy
+      have := ih _ _ hxy.2
+      have ex := Nat.div_add_mod x 256
+      have ey := Nat.div_add_mod y 256
+      omega
+  exact ⟨inj 7 a b h2, inj 3 i j h3⟩
+
 theorem ring_eq_of_same_members {hashV : Nat → Nat → Nat} {r₁ r₂ : HashRing}
     (h1 : Reachable hashV r₁) (h2 : Reachable hashV r₂) (hv : r₁.vnodes = r₂.vnodes)
     (hm : ∀ y, y ∈ r₁.phys ↔ y ∈ r₂.phys) (hinj : PosInjective hashV r₁.phys r₁.vnodes) :
@@ -997,6 +1018,65 @@ theorem get_fromConfigPeers_pinned (r n id : Nat) :
         have hA : (1 ≤ id ∧ id ≤ r ∧ id ≤ n) ↔ (1 ≤ id ∧ id ≤ r ∧ id ≤ n + 1) := by omega
         have hB : (r + 2 ≤ id ∧ id ≤ n + 1) ↔ (r + 2 ≤ id ∧ id ≤ n + 1 + 1) := by omega
         simp only [hA, hB]
+
+/-! ## a larger replication factor extends the replica list (session 3) -/
+
+theorem collectStep_pos {n x : Nat} {acc : List Nat} (h : acc.length < n ∧ ¬ x ∈ acc) :
+    collectStep n acc x = acc ++ [x] := if_pos h
+
+theorem collectStep_neg {n x : Nat} {acc : List Nat} (h : ¬ (acc.length < n ∧ ¬ x ∈ acc)) :
+    collectStep n acc x = acc := if_neg h
+
+theorem collectStep_take {n m : Nat} (hnm : n ≤ m) {a b : List Nat} (hab : a = b.take n) (x : Nat) :
+    collectStep n a x = (collectStep m b x).take n := by
+  have hlen : a.length = min n b.length := by rw [hab, List.length_take]
+  by_cases hxb : x ∈ b
+  · -- b unchanged
+    rw [collectStep_neg (acc := b) (fun h => h.2 hxb)]
+    by_cases hxa : x ∈ a
+    · rw [collectStep_neg (acc := a) (fun h => h.2 hxa)]; exact hab
+    · have hn : ¬ a.length < n := by
+        intro hlt
+        have hbl : b.length = a.length := by omega
+        have hab' : a = b := by rw [hab, List.take_of_length_le (by omega)]
+        exact hxa (hab' ▸ hxb)
+      rw [collectStep_neg (acc := a) (fun h => hn h.1)]; exact hab
+  · have hxa : ¬ x ∈ a := fun h => hxb (List.mem_of_mem_take (hab ▸ h))
+    by_cases hbm : b.length < m
+    · rw [collectStep_pos (acc := b) ⟨hbm, hxb⟩]
+      by_cases han : a.length < n
+      · rw [collectStep_pos (acc := a) ⟨han, hxa⟩]
+        have hbl : b.length = a.length := by omega
+        have hab' : a = b := by rw [hab, List.take_of_length_le (by omega)]
+        rw [hab', List.take_of_length_le (by simp; omega)]
+      · rw [collectStep_neg (acc := a) (fun h => han h.1)]
+        have hnb : n ≤ b.length := by omega
+        rw [List.take_append_of_le_length hnb]
+        exact hab
+    · rw [collectStep_neg (acc := b) (fun h => hbm h.1)]
+      have hn : ¬ a.length < n := by omega
+      rw [collectStep_neg (acc := a) (fun h => hn h.1)]
+      exact hab
+
+theorem collect_take {n m : Nat} (hnm : n ≤ m) (l : List Nat) :
+    ∀ {a b : List Nat}, a = b.take n → collect n l a = (collect m l b).take n := by
+  induction l with
+  | nil => intro a b h; exact h
+  | cons x xs ih =>
+    intro a b h
+    rw [collect_cons, collect_cons]
+    exact ih (collectStep_take hnm h x)
+
+/-- the replica list for a smaller replication factor is the PREFIX of the list for a larger one:
+    raising a key's RF (hot-key promotion) only adds owners, lowering it only drops the last ones -/
+theorem replicas_rf_take {r : HashRing} (h : WF r) (keyPos rf₁ rf₂ : Nat) (hle : rf₁ ≤ rf₂) :
+    getReplicasWithRf r keyPos rf₁ = (getReplicasWithRf r keyPos rf₂).take (min rf₁ r.phys.length) := by
+  rw [getReplicasWithRf_eq h.sorted, getReplicasWithRf_eq h.sorted]
+  apply collect_take
+  · have := Nat.min_le_right rf₁ r.phys.length
+    have := Nat.min_le_left rf₁ r.phys.length
+    exact Nat.le_min.mpr ⟨by omega, by omega⟩
+  · simp
 
 end Ring
 end RedisVerif
